@@ -1665,7 +1665,7 @@ MANIFEST = dict(
          "step 1/2/3 of the mapping iteration or of the definition access) "
          "caught after unwinding 0..3 scopes, normal end, body Exception / BaseException unwinding 1..3 scopes, DIP "
          "parses that succeed "
-         "or fail inside the body - is applied in every reachable state with nesting <= 3 (1737 canonical states; quick "
+         "or fail inside the body - is applied in every reachable state with nesting <= 3 (about 2 000 canonical states; quick "
          "visits depth-3 states only as three nested with-blocks with unwinding distances 0/3); (hist) all un-pruned "
          "histories with <= 2 failing steps up to length 3 (quick) / 4 (thorough) over the full alphabet and 5 / 6 over "
          "a core alphabet, plus three repeated open/close cycles; (dip) every DIP line program up to 3 / 4 distinct "
